@@ -164,7 +164,7 @@ def expr_core(work):
             sl.sub("L12b:get_size->contract", r"\bget_size\(\)", "get_size__contract()", required=True)
         fl.append(sl)
     gsy = X.function(src, "expression_t::get_symbol const", r"^const symbol_t expression_t::get_symbol\(\) const")
-    X.rename_self_calls(gsy, "get_symbol", pattern=r"\)\.get_symbol\(", minimum=5)
+    X.rename_self_calls(gsy, "get_symbol", pattern=r"\)\.get_symbol\(", minimum=0)
     fl.append(gsy)
     facts = []
     for name, rx in (("create_constant", r"^expression_t expression_t::create_constant\(int32_t value, position_t pos\)"),
